@@ -846,6 +846,12 @@ func (n *IncludeNode) Render(w io.Writer, ctx *RenderContext) error {
 
 	// Need a new context for 'only' mode, sandboxed mode, or with variables
 	includeCtx := ctx
+	if !n.only && !n.sandboxed {
+		// 'with' variables must stay local to the included template
+		includeCtx = ctx.Clone()
+		includeCtx.lastLoadedTemplate = template
+		defer includeCtx.Release()
+	}
 	if n.only || n.sandboxed {
 		var contextVars map[string]interface{}
 
